@@ -517,12 +517,12 @@ func (env *SpecEnv) slice(x *SSlice) Val {
 	}
 	if base.Ty != nil {
 		if _, ok := base.Ty.Underlying().(*types.Slice); ok {
-			arr, off, ln, _ := u.sliceParts(base)
+			_, _, ln, _ := u.sliceParts(base)
 			hi := ln
 			if x.Hi != nil {
 				hi = env.eval(x.Hi).T
 			}
-			return Val{T: u.mkSlice(base.So, arr, sAdd(off, lo), sSub(hi, lo), "false"), Ty: base.Ty, So: base.So}
+			return Val{T: u.subSlice(base, lo, hi), Ty: base.Ty, So: base.So}
 		}
 	}
 	env.fail("slice expression on sort %s", base.So)
@@ -716,7 +716,75 @@ func (env *SpecEnv) pureCall(f *types.Func, recv *Val, args []SExpr) Val {
 		env.fail("pure function %s must have one result", key)
 	}
 	rt := sig.Results().At(0).Type()
+	u.pureAxiom(pk, key, c, f)
 	return u.pureApp(pk, key, vals, rt)
+}
+
+// pureAxiom states the contract of a pure function about its uninterpreted function symbol:
+// forall args :: requires ==> ensures[result := P_f(args)]. The contract itself is proved on
+// the function's body (or listed as trusted for externs).
+func (u *Unit) pureAxiom(pk, key string, c *Contract, f *types.Func) {
+	id := "pure:" + pk + "." + key
+	if u.ghostDone[id] || len(c.Ensures) == 0 {
+		return
+	}
+	u.ghostDone[id] = true
+	sig := f.Type().(*types.Signature)
+	var vals []Val
+	var decls []string
+	names := map[string]Val{}
+	mk := func(name string, t types.Type, i int) Val {
+		bn := fmt.Sprintf("%s!p%d", mangle(name), i)
+		v := Val{T: bn, Ty: t, So: u.sortOf(t)}
+		decls = append(decls, fmt.Sprintf("(%s %s)", bn, v.So))
+		return v
+	}
+	var recv *Val
+	if sig.Recv() != nil {
+		v := mk("recv", sig.Recv().Type(), 99)
+		recv = &v
+		vals = append(vals, v)
+	}
+	var args []Val
+	for i := 0; i < sig.Params().Len(); i++ {
+		v := mk(sig.Params().At(i).Name(), sig.Params().At(i).Type(), i)
+		args = append(args, v)
+		vals = append(vals, v)
+	}
+	_ = names
+	res := u.pureApp(pk, key, vals, sig.Results().At(0).Type())
+	env := u.calleeEnv(newState(), nil, c, pk, sig, sig, recv, args, []Val{res})
+	env.st = u.pureState()
+	var pre, post, guards []string
+	for _, v := range vals {
+		if inv := u.typeInv(v); inv != "true" {
+			guards = append(guards, inv)
+		}
+	}
+	for _, r := range c.Requires {
+		pre = append(pre, env.evalBool(r.Expr))
+	}
+	for _, e := range c.Ensures {
+		post = append(post, env.evalBool(e.Expr))
+	}
+	body := sImp(sAnd(append(guards, pre...)...), sAnd(post...))
+	if len(decls) == 0 {
+		u.d.axiom(id, body)
+	} else {
+		u.d.axiom(id, fmt.Sprintf("(forall (%s) (! %s :pattern (%s)))", strings.Join(decls, " "), body, res.T))
+	}
+	if c.Extern || c.Trusted {
+		u.trustedUsed[pk+"."+key] = true
+	}
+}
+
+// pureState: heap snapshot used when a pure function's contract mentions heap fields. Pure
+// functions must only depend on immutable state, so the entry heap is used.
+func (u *Unit) pureState() *State {
+	if u.entry != nil {
+		return u.entry
+	}
+	return newState()
 }
 
 func (u *Unit) pureApp(pk, key string, vals []Val, rt types.Type) Val {
@@ -855,15 +923,11 @@ func (u *Unit) resolveType(home *packages.Package, t *STypeExpr) (types.Type, st
 			pk, nm := t.Name[:i], t.Name[i+1:]
 			var tp *types.Package
 			if home != nil {
-				for _, imp := range home.Types.Imports() {
-					if imp.Name() == pk || imp.Path() == pk {
-						tp = imp
-					}
-				}
+				tp = (&SpecEnv{u: u, home: home}).importedPkg(pk)
 			}
 			if tp == nil {
 				for path, p := range u.eng.pkgs {
-					if (path == pk || p.Types.Name() == pk) && p.Types != nil {
+					if path == pk && p.Types != nil {
 						tp = p.Types
 					}
 				}
